@@ -103,9 +103,9 @@ def c14_case(draw, max_tasks=7):
     if flavour == 'tod-bounds' and used:
         anchor = (dt(c['P']) - BASE).days
         for name in used:
-            if draw(st.booleans()):
+            if draw(st.integers(0, 3)) > 0:
                 cs = draw(specs.calendar_spec(tod=True))
-                if draw(st.booleans()):
+                if draw(st.integers(0, 3)) > 0:
                     # put the first valid day right next to the project end / start: that is where a search lands on it
                     k = 3 if cs[0] == 'bounded_tod' else 2
                     cs[k] = anchor - draw(st.sampled_from([1, 1, 2, 0])) if not fwd else anchor + draw(st.sampled_from([0, 1, 2]))
@@ -259,4 +259,4 @@ def check(case, exclude=True):
 def streams(tier):
     n = 7 if tier == 'quick' else 10
     return [Stream('both-schedulers', check, strategy=lambda: c14_case(max_tasks=n),
-                   examples={'quick': 3000, 'thorough': 40000})]
+                   examples={'quick': 5000, 'thorough': 50000})]
